@@ -1,6 +1,18 @@
 -- GENERATED: axiom audit for Props/C05*.lean
+import Props.C05_flat
 import Props.C05_hier
 import Props.C05_xml
+import Props.C05_xmlattrs
+#print axioms SpyneModel.Props.C05flat.leafLaws03
+#print axioms SpyneModel.Props.C05flat.facts03_soft
+#print axioms SpyneModel.Props.C05flat.flat_soft_accepted_conforms
+#print axioms SpyneModel.Props.C05flat.flat_soft_query_accepted_conforms
+#print axioms SpyneModel.Props.C05flat.flat_soft_rejects_nonconformant
+#print axioms SpyneModel.Props.C05flat.flat_soft_accepts_conformant_partial
+#print axioms SpyneModel.Props.C05flat.flat_soft_accepts_query_partial
+#print axioms SpyneModel.Props.C05flat.documented_value_conforms
+#print axioms SpyneModel.Props.C05flat.flat_soft_only_rejects
+#print axioms SpyneModel.Props.C05flat.flat_accepted_is_accepted_by_dict_protocols
 #print axioms SpyneModel.Props.C05hier.facts02_rt
 #print axioms SpyneModel.Props.C05hier.facts02_mp
 #print axioms SpyneModel.Props.C05hier.hier_soft_accepts_conformant
@@ -23,3 +35,6 @@ import Props.C05_xml
 #print axioms SpyneModel.Props.C05xml.xml_soft_nil_exact
 #print axioms SpyneModel.Props.C05xml.xsi_nil_false_is_not_nil
 #print axioms SpyneModel.Props.C05xml.xml_soft_freq_enforced
+#print axioms SpyneModel.Props.C05xmlattrs.xml_soft_accepts_conformant_attrs
+#print axioms SpyneModel.Props.C05xmlattrs.xml_soft_accepted_conforms_attrs
+#print axioms SpyneModel.Props.C05xmlattrs.xml_soft_attribute_value_exact
